@@ -21,7 +21,7 @@ theorem matVarSize_iff (len n : Nat) : getMatVarSize len = some n ↔ len = 4 ^ 
 
 theorem new_accepts_iff (m : List Rat) (vs : List Nat) :
     (∃ I, Interaction.new m vs = .ok I) ↔
-      (∀ x ∈ m, 0 ≤ x) ∧ vs ≠ [] ∧ m.length = 4 ^ vs.length := by
+      (∀ x ∈ m, 0 ≤ x) ∧ (vs ≠ [] ∧ vs.Nodup) ∧ m.length = 4 ^ vs.length := by
   rw [new_eq]; split <;> simp_all
 
 theorem new_never_panics (m : List Rat) (vs : List Nat) : Interaction.new m vs ≠ .panic := by
@@ -38,8 +38,15 @@ theorem new_rejects_with_error (m : List Rat) (vs : List Nat)
 
 theorem newDiagonal_accepts_iff (m : List Rat) (vs : List Nat) :
     (∃ I, Interaction.newDiagonal m vs = .ok I) ↔
-      (∀ x ∈ m, 0 ≤ x) ∧ vs ≠ [] ∧ m.length = 2 ^ vs.length := by
+      (∀ x ∈ m, 0 ≤ x) ∧ (vs ≠ [] ∧ vs.Nodup) ∧ m.length = 2 ^ vs.length := by
   rw [newDiagonal_eq]; split <;> simp_all
+
+/-- fix F26: a variable list naming a variable twice is rejected with an error by both constructors -/
+theorem repeated_variable_rejected (m : List Rat) (vs : List Nat) (h : ¬ vs.Nodup) :
+    Interaction.new m vs = .err ∧ Interaction.newDiagonal m vs = .err := by
+  constructor
+  · rw [new_eq, if_neg]; exact fun hc => h hc.2.1.2
+  · rw [newDiagonal_eq, if_neg]; exact fun hc => h hc.2.1.2
 
 theorem newDiagonal_never_panics (m : List Rat) (vs : List Nat) :
     Interaction.newDiagonal m vs ≠ .panic := by
@@ -319,7 +326,7 @@ variable list (whatever the signs: the minimum is subtracted first); the recorde
 minimum entry and the stored table is the input minus that minimum (so its minimum is 0). -/
 theorem newDiagonalOffset_spec (m : List Rat) (vs : List Nat) :
     Interaction.newDiagonalOffset m vs ≠ .panic ∧
-    ((∃ r, Interaction.newDiagonalOffset m vs = .ok r) ↔ vs ≠ [] ∧ m.length = 2 ^ vs.length) ∧
+    ((∃ r, Interaction.newDiagonalOffset m vs = .ok r) ↔ (vs ≠ [] ∧ vs.Nodup) ∧ m.length = 2 ^ vs.length) ∧
     (∀ I d, Interaction.newDiagonalOffset m vs = .ok (I, d) →
       d ∈ m ∧ (∀ x ∈ m, d ≤ x) ∧ I.mat = m.map (· - d) ∧ (0 : Rat) ∈ I.mat ∧
       Interaction.newDiagonal (m.map (· - d)) vs = .ok I) := by
